@@ -1684,6 +1684,11 @@ class InterInventoryTree(InterTree):
             source_path = path_equivs[target_path]
             if source_path is not None:
                 source_entry = from_data.get(source_path)
+                if source_entry is None:
+                    # The source path was not selected by specific_files (the
+                    # two trees may relate different paths); don't report the
+                    # entry as unversioned in source.
+                    source_entry = self._get_entry(self.source, source_path)
             else:
                 source_entry = None
             result, changes = self._changes_from_entries(
